@@ -105,8 +105,10 @@ def data_record(frames, x_first=None, data_type=0):
     return out
 
 
-def physical(lrs, tif=False, max_payload=None):
-    """Wrap logical records into physical records (no trailer), optionally TIF-marked.  Returns (bytes, [start position of each LR])."""
+def physical(lrs, tif=False, max_payload=None, pad_modulo=0):
+    """Wrap logical records into physical records (no trailer), optionally TIF-marked.  Returns (bytes, [start position of each LR]).
+    pad_modulo (2 or 4, plain files only): every physical record is followed by NUL bytes up to the next multiple of pad_modulo, as
+    some tape-to-disk copies do (the reader has an option for it: File.file_read_with_best_physical_record_pad_settings)."""
     out = b''
     pos = []
     prev = 0
@@ -123,6 +125,8 @@ def physical(lrs, tif=False, max_payload=None):
                 out += _le32(0) + _le32(prev) + _le32(nxt)
                 prev = here
             out += pr
+            if pad_modulo and not tif and len(out) % pad_modulo:
+                out += b'\x00' * (pad_modulo - len(out) % pad_modulo)
     if tif:
         here = len(out)
         out += _le32(1) + _le32(prev) + _le32(here + 12)
